@@ -6,13 +6,16 @@ O1 == NOneHot
 O2 == O1 + NRandFeed
 O3 == O2 + NGenLens
 O4 == O3 + NReal
-Count == O4 + NErrno
+O5 == O4 + NErrno
+Count == O5 + NAliasLens
 ItemAt(g) ==
   IF g <= O1 THEN OneHotAt(g)
   ELSE IF g <= O2 THEN RandFeedAt(g - O1)
   ELSE IF g <= O3 THEN GenLenAt(g - O2)
   ELSE IF g <= O4 THEN RealAt(g - O3)
-  ELSE ErrnoAt(g - O4)
+  ELSE IF g <= O5 THEN ErrnoAt(g - O4)
+  ELSE AliasLenAt(g - O5)
+Histories == IF "VERIF_TIER" \in DOMAIN IOEnv /\ IOEnv.VERIF_TIER = "thorough" THEN 300 ELSE 40
 VARIABLE n
 INSTANCE GenBase
 =============================================================================
